@@ -1,5 +1,6 @@
 import KmipGen.Schema
 import KmipModel.WF
+import KmipModel.Encode
 /-
   C01, generated obligation (re-checked against /repo's current source on every run): every struct descriptor the
   translator regenerates from the package's annotated types satisfies the schema side conditions of C01_roundtrip —
@@ -12,5 +13,28 @@ theorem GenC01_schemas_ok : KmipGen.allSchemas.all (fun sd => sd.descOk && SD.OK
   decide +kernel
 
 theorem GenC01_schema_count : KmipGen.allSchemas.length = KmipGen.numTypes := by decide
+
+/-! ### non-vacuity on a real, dynamically typed structure: an Attribute named "Name" carrying a Name structure -/
+
+def exAttrName : Bytes := [78, 97, 109, 101]
+
+def exAttr : Val :=
+  .struct [.one (.text exAttrName), .one (.int 0),
+    .dyn (.val false (.struct KmipGen.sd_Name) (.struct [.one (.text [107, 49]), .one (.enum 1)]))]
+
+/-- the hypotheses of C01_roundtrip hold for it … -/
+theorem GenC01_example_wf : WFv (.struct KmipGen.sd_Attribute) exAttr := by
+  simp only [exAttr, WFv, KmipGen.sd_Attribute, SD.fields, WFflds, WFfv, Fld.slice, Fld.ty, Fld.ignored, Fld.tag, Fld.skip]
+  refine ⟨⟨trivial, by decide, trivial, by decide⟩, ⟨trivial, by decide, trivial, by decide⟩, ⟨trivial, by decide, ?_, ?_⟩, trivial⟩
+  · exact ⟨0, _, .one (.text exAttrName), .str exAttrName, .mk (.str exAttrName) true (.struct KmipGen.sd_Name), rfl, rfl, rfl, rfl, rfl, rfl⟩
+  · simp only [KmipGen.sd_Name, WFflds, WFfv, WFv, Fld.slice, Fld.ty, Fld.ignored, Fld.tag, Fld.skip]
+    exact ⟨⟨trivial, by decide, trivial, by decide⟩, ⟨trivial, by decide, trivial, by decide⟩, trivial⟩
+
+theorem GenC01_example_small : (canonTop KmipGen.sd_Attribute exAttr).Small = true := by decide
+
+/-- … and the encoder model produces bytes for it (64 of them) -/
+theorem GenC01_example_encodes : ∃ bs, encodeSD KmipGen.sd_Attribute exAttr = .ok bs ∧ bs.length = 64 := by
+  refine ⟨_, rfl, ?_⟩
+  decide
 
 end Kmip
